@@ -137,7 +137,7 @@ FIXED = {
  "fs:delete-objects-duplicate-key": "c55c267", "fs:delete-objects-omits-missing-keys": "c55c267",
  "fs:list-parts-unordered": "764f144",
  "fs:list-delimiter-not-rolled-up": "fe72881", "fs:list-delimiter-rewrites-keys": "fe72881", "fs:list-ignores-max-keys": "fe72881",
- "fs:complete-requires-consecutive-parts": "fa59617", "fs:complete-part-list-validation": "a00e4e8",
+ "fs:complete-requires-consecutive-parts": "dbb8684", "fs:complete-part-list-validation": "0fcb858",
 }
 # repairs whose text says explicitly that it describes the code before the repair
 BEFORE = {"fs:head-missing-key-code", "fs:delete-missing-key-error", "fs:missing-bucket-reported-as-missing-key",
